@@ -138,6 +138,35 @@ def run [DecidableEq κ] (n : Nat) (tl : List (Ev κ α)) : List (κ × α) := r
 def native [DecidableEq κ] (n : Nat) (tl : List (Ev κ α)) (e : End) : List (Out κ α) :=
   (run n tl).map (fun p => Out.item p.1 p.2) ++ e.toOut
 
+/-! ### (a') schedules: a tick that lands inside the completion of the source
+
+  `WindowWhen` handles the completion of its source in two steps that are not atomic
+  (`operator_transformations.go:662-665`): `flush(ctx, true)` closes the current window under the
+  mutex, then `destination.CompleteWithContext(ctx)`. The boundary is served by another goroutine
+  (`Interval`, `operator_creation.go:90-107`). A tick whose `flush(ctx, false)` (`:624-645`) runs in
+  between opens a fresh window and hands it to the destination; `MergeAll` subscribes to it
+  (`operator_combining.go:143-158`) and counts it, nobody ever completes it (the source is done, the
+  boundary is unsubscribed when the destination completes), so that group's merged stream never
+  completes and neither does the limiter: the completion of the source is LOST. (An error of the
+  source is not affected: GroupBy hands it to the destination before it touches the groups,
+  `operator_transformations.go:368-373`.) -/
+
+/-- key `k` has a group at the end of the timeline -/
+def hasGroup [DecidableEq κ] (k : κ) (tl : List (Ev κ α)) : Bool := (items tl).any (fun p => p.1 = k)
+
+/-- what the pinned tree does with such a tick (known finding C20 "tick-inside-completion"). With
+    repo_fixes/C20-windowwhen-late-window.patch applied the tick is ignored: set this to `false`
+    (then `nativeSched = native` for every schedule and the exclusion of `nativeSched_partial` goes). -/
+def lateTickLosesCompletion : Bool := true
+
+/-- the native limiter under a schedule that also says which keys' tickers fire inside the
+    completion of the source (`late`) -/
+def nativeSched [DecidableEq κ] (n : Nat) (tl : List (Ev κ α)) (e : End) (late : List κ) : List (Out κ α) :=
+  match e with
+  | .complete =>
+      if lateTickLosesCompletion && late.any (fun k => hasGroup k tl) then (run n tl).map (fun p => Out.item p.1 p.2) else native n tl e
+  | _ => native n tl e
+
 /-! ### (b) ulule -/
 
 /-- an answer of `limiter.Get`: `(rate, nil)` with `rate.Reached`, or `(_, err)` -/
